@@ -268,8 +268,14 @@ func (w *World) setRoots(in *Instance, set []string, plan []int) {
 	for k, v := range in.rootsMem {
 		before[k] = v
 	}
+	w.smu.Lock()
+	w.rootsTasks++
+	w.smu.Unlock()
 	go func() {
 		err := l.SetRootsFromPEM(context.Background(), pemBytes)
+		w.smu.Lock()
+		w.rootsTasks--
+		w.smu.Unlock()
 		if in.inc != inc || in.dead {
 			select {}
 		}
@@ -309,6 +315,49 @@ func (w *World) checkGetRoots(in *Instance) {
 		w.orc.v("C09", "get-roots", "get-roots reports %v, accepted roots are %v", g, m)
 	}
 	w.sim.Probe("roots.get")
+}
+
+// checkRootsAgree: without any injected failure a reload persists and swaps as
+// one step, so whenever no reload is in flight the persisted root set is the one
+// in memory (what a restart would bring back is what get-roots reports now).
+func (w *World) checkRootsAgree() {
+	p := w.prof
+	if p.RootsW == 0 || p.OpErrW > 0 || p.StallW > 0 || p.CrashW > 0 || p.SlowW > 0 {
+		return
+	}
+	w.smu.Lock()
+	n := w.rootsTasks
+	w.smu.Unlock()
+	if n > 0 {
+		return
+	}
+	for _, in := range w.insts {
+		if in.state != stRunning || in.dead || in.log == nil || in.rootsFetchFailed {
+			continue
+		}
+		d, ok := in.store.get("_roots.pem")
+		if !ok {
+			continue
+		}
+		persisted := parseRootSet(d)
+		var a, b []string
+		for k, v := range persisted {
+			if v {
+				a = append(a, k)
+			}
+		}
+		for k, v := range in.rootsMem {
+			if v {
+				b = append(b, k)
+			}
+		}
+		sort.Strings(a)
+		sort.Strings(b)
+		if len(b) > 0 && strings.Join(a, ",") != strings.Join(b, ",") {
+			w.orc.v("C09", "roots-memory-storage-diverge", "no reload in flight and no injected failure, yet _roots.pem holds %v while the running log accepts %v: a restart would change get-roots", a, b)
+		}
+		w.sim.Probe("roots.agree.checked")
+	}
 }
 
 // afterLoad: the roots after a (re)start are the last persisted ones.
